@@ -58,8 +58,12 @@ type statPlan struct {
 }
 
 type sub struct {
-	id      int
-	mem     *memory.Storage
+	id  int
+	mem *memory.Storage
+	// truncated copies (one byte short) this sub-store holds INSTEAD of the good copy: what a backend
+	// is left with after a write that failed half-way
+	bmu     sync.Mutex
+	bad     map[blob.Ref][]byte
 	down    atomic.Bool
 	rplan   atomic.Pointer[recvPlan]
 	splan   atomic.Pointer[statPlan]
@@ -68,10 +72,43 @@ type sub struct {
 
 var _ blobserver.Storage = (*sub)(nil)
 
+// get returns the copy this sub-store holds (good or truncated)
+func (s *sub) get(br blob.Ref) (string, bool) {
+	s.bmu.Lock()
+	b, ok := s.bad[br]
+	s.bmu.Unlock()
+	if ok {
+		return string(b), true
+	}
+	return s.mem.BlobContents(br)
+}
+
+// storeGood: the copy written last replaces an earlier (truncated) one
+func (s *sub) storeGood(ctx context.Context, br blob.Ref, data []byte) (blob.SizedRef, error) {
+	s.bmu.Lock()
+	delete(s.bad, br)
+	s.bmu.Unlock()
+	return s.mem.ReceiveBlob(ctx, br, bytes.NewReader(data))
+}
+
+func (s *sub) storeBad(ctx context.Context, br blob.Ref, data []byte) blob.SizedRef {
+	s.mem.RemoveBlobs(ctx, []blob.Ref{br})
+	s.bmu.Lock()
+	s.bad[br] = append([]byte(nil), data[:len(data)-1]...)
+	s.bmu.Unlock()
+	return blob.SizedRef{Ref: br, Size: uint32(len(data) - 1)}
+}
+
 func (s *sub) Fetch(ctx context.Context, br blob.Ref) (io.ReadCloser, uint32, error) {
 	s.fetches.Add(1)
 	if s.down.Load() {
 		return nil, 0, errDown
+	}
+	s.bmu.Lock()
+	b, ok := s.bad[br]
+	s.bmu.Unlock()
+	if ok {
+		return io.NopCloser(bytes.NewReader(b)), uint32(len(b)), nil
 	}
 	return s.mem.Fetch(ctx, br)
 }
@@ -79,7 +116,11 @@ func (s *sub) Fetch(ctx context.Context, br blob.Ref) (io.ReadCloser, uint32, er
 func (s *sub) ReceiveBlob(ctx context.Context, br blob.Ref, src io.Reader) (blob.SizedRef, error) {
 	p := s.rplan.Load()
 	if p == nil {
-		return s.mem.ReceiveBlob(ctx, br, src)
+		data, err := io.ReadAll(src)
+		if err != nil {
+			return blob.SizedRef{}, err
+		}
+		return s.storeGood(ctx, br, data)
 	}
 	pos, ok := p.posOf[s.id]
 	if !ok {
@@ -96,18 +137,19 @@ func (s *sub) ReceiveBlob(ctx context.Context, br blob.Ref, src io.Reader) (blob
 		// what a remote replica does when the caller has gone away
 		return blob.SizedRef{}, err
 	}
-	store := func() (blob.SizedRef, error) { return s.mem.ReceiveBlob(ctx, br, bytes.NewReader(data)) }
 	switch p.kind[pos] {
 	case "ok":
-		return store()
+		return s.storeGood(ctx, br, data)
 	case "ws":
-		sb, err := store()
+		sb, err := s.storeGood(ctx, br, data)
 		sb.Size++
 		return sb, err
 	case "w0":
 		return blob.SizedRef{Ref: br, Size: uint32(len(data)) + 1}, nil
+	case "tr":
+		return s.storeBad(ctx, br, data), nil
 	case "es":
-		store()
+		s.storeGood(ctx, br, data)
 		return blob.SizedRef{}, &injErr{pos}
 	default: // "err"
 		return blob.SizedRef{}, &injErr{pos}
@@ -124,22 +166,67 @@ func (s *sub) StatBlobs(ctx context.Context, blobs []blob.Ref, fn func(blob.Size
 	if s.down.Load() {
 		return errDown
 	}
-	// the memory store ignores ctx; a cancelled errgroup context must not hide reports
-	return s.mem.StatBlobs(ctx, blobs, fn)
+	// request order, like the memory store (which ignores ctx: a cancelled errgroup context must not
+	// hide reports)
+	for _, br := range blobs {
+		if c, ok := s.get(br); ok {
+			if err := fn(blob.SizedRef{Ref: br, Size: uint32(len(c))}); err != nil {
+				return err
+			}
+		}
+	}
+	return nil
+}
+
+// all returns what the sub-store holds, ascending by ref
+func (s *sub) all() []blob.SizedRef {
+	var out []blob.SizedRef
+	for _, str := range s.mem.BlobrefStrings() {
+		br := blob.MustParse(str)
+		c, _ := s.mem.BlobContents(br)
+		out = append(out, blob.SizedRef{Ref: br, Size: uint32(len(c))})
+	}
+	s.bmu.Lock()
+	for br, b := range s.bad {
+		out = append(out, blob.SizedRef{Ref: br, Size: uint32(len(b))})
+	}
+	s.bmu.Unlock()
+	sort.Slice(out, func(a, b int) bool { return out[a].Ref.Digest() < out[b].Ref.Digest() })
+	return out
 }
 
 func (s *sub) EnumerateBlobs(ctx context.Context, dest chan<- blob.SizedRef, after string, limit int) error {
+	defer close(dest)
 	if s.down.Load() {
-		close(dest)
 		return errDown
 	}
-	return s.mem.EnumerateBlobs(ctx, dest, after, limit)
+	n := 0
+	for _, sb := range s.all() {
+		if after != "" && sb.Ref.String() <= after {
+			continue
+		}
+		select {
+		case dest <- sb:
+		case <-ctx.Done():
+			return ctx.Err()
+		}
+		n++
+		if limit > 0 && n == limit {
+			break
+		}
+	}
+	return nil
 }
 
 func (s *sub) RemoveBlobs(ctx context.Context, blobs []blob.Ref) error {
 	if s.down.Load() {
 		return errDown
 	}
+	s.bmu.Lock()
+	for _, br := range blobs {
+		delete(s.bad, br)
+	}
+	s.bmu.Unlock()
 	return s.mem.RemoveBlobs(ctx, blobs)
 }
 
@@ -157,6 +244,7 @@ func pooledSub(i int, fetches *atomic.Int64) *sub {
 	}
 	s := subPool[i]
 	s.mem = &memory.Storage{}
+	s.bad = map[blob.Ref][]byte{}
 	s.down.Store(false)
 	s.rplan.Store(nil)
 	s.splan.Store(nil)
@@ -301,21 +389,13 @@ func showSRs(l []blob.SizedRef) string {
 	return strings.Join(s, ",")
 }
 
+// holds: sub-store i has a copy of br (content == nil: any copy; else exactly these bytes)
 func (w *world) holds(i int, br blob.Ref, content []byte) bool {
-	c, ok := w.subs[i].mem.BlobContents(br)
+	c, ok := w.subs[i].get(br)
 	return ok && (content == nil || c == string(content))
 }
 
-func (w *world) contents(i int) []blob.SizedRef {
-	var out []blob.SizedRef
-	for _, s := range w.subs[i].mem.BlobrefStrings() {
-		br := blob.MustParse(s)
-		c, _ := w.subs[i].mem.BlobContents(br)
-		out = append(out, blob.SizedRef{Ref: br, Size: uint32(len(c))})
-	}
-	sort.Slice(out, func(a, b int) bool { return out[a].Ref.Digest() < out[b].Ref.Digest() })
-	return out
-}
+func (w *world) contents(i int) []blob.SizedRef { return w.subs[i].all() }
 
 // ---------------------------------------------------------------------------------------------
 // quiescence: has ReceiveBlob consumed everything that was sent to it so far?
@@ -386,20 +466,24 @@ func (w *world) exec(ws []string) string {
 		w.sto = nil
 		return "ok"
 
-	case ws[0] == "put" && len(ws) == 4:
+	case (ws[0] == "put" || ws[0] == "puttr") && len(ws) == 4:
 		i, ok1 := natArg(ws[1])
 		br, ok2 := keyArg(ws[2])
 		c, ok3 := hk.UnHex(ws[3])
 		if ws[3] == "-" {
 			c, ok3 = []byte{}, true
 		}
-		if !ok1 || !ok2 || !ok3 || i >= len(w.subs) {
+		if !ok1 || !ok2 || !ok3 || i >= len(w.subs) || (ws[0] == "puttr" && len(c) == 0) {
 			return "bad-op"
 		}
 		if blob.RefFromBytes(c) != br {
 			return "bad-op"
 		}
-		if _, err := w.subs[i].mem.ReceiveBlob(ctx, br, bytes.NewReader(c)); err != nil {
+		if ws[0] == "puttr" {
+			w.subs[i].storeBad(ctx, br, c)
+			return "ok"
+		}
+		if _, err := w.subs[i].storeGood(ctx, br, c); err != nil {
 			return "err"
 		}
 		return "ok"
@@ -480,6 +564,10 @@ func (w *world) exec(ws []string) string {
 			}
 			switch pk[1] {
 			case "ok", "ws", "w0", "err", "es":
+			case "tr":
+				if len(c) == 0 {
+					return "bad-op"
+				}
 			default:
 				return "bad-op"
 			}
@@ -520,9 +608,10 @@ func (w *world) exec(ws []string) string {
 		}
 		data, rerr := io.ReadAll(rc)
 		rc.Close()
-		if rerr != nil || int(size) != len(data) || blob.RefFromBytes(data) != br {
+		if rerr != nil || int(size) != len(data) {
 			return "corrupt"
 		}
+		// a truncated copy served by a backend is that backend's corruption, visible as the size
 		return fmt.Sprintf("ok %d tried=%d", size, tried)
 
 	case ws[0] == "stat" && len(ws) == 3:
@@ -611,9 +700,23 @@ func (w *world) exec(ws []string) string {
 	return "bad-op"
 }
 
+// watchdog bounds every wait of the arrival-order forcing: a ReceiveBlob / StatBlobs that does not start
+// or finish the calls the orchestration waits for is an observation, not a hang
+const watchdog = 4 * time.Second
+
+func waitc(ch <-chan struct{}, deadline time.Time) bool {
+	select {
+	case <-ch:
+		return true
+	case <-time.After(time.Until(deadline)):
+		return false
+	}
+}
+
 // recv runs ReceiveBlob with the uploads' results arriving in `order` (positions in the write list).
 // It returns the protocol answer and the set of write sub-stores holding the blob (with the right
-// content) at the moment ReceiveBlob returned.
+// content) at the moment ReceiveBlob returned.  If ReceiveBlob returns before every upload has
+// started (so the order cannot be forced) the answer carries the suffix " unforced".
 func (w *world) recv(br blob.Ref, content []byte, order []int, kinds map[int]string, cancelLate bool) (string, []int) {
 	n := len(w.writes)
 	p := &recvPlan{posOf: map[int]int{}, kind: make([]string, n), entered: make(chan int, n)}
@@ -626,11 +729,13 @@ func (w *world) recv(br blob.Ref, content []byte, order []int, kinds map[int]str
 	for _, id := range w.writes {
 		w.subs[id].rplan.Store(p)
 	}
-	defer func() {
-		for _, id := range w.writes {
-			w.subs[id].rplan.Store(nil)
+	opened := make([]bool, n)
+	open := func(pos int) {
+		if !opened[pos] {
+			opened[pos] = true
+			close(p.gate[pos])
 		}
-	}()
+	}
 	ctx, cancel := context.WithCancel(context.Background())
 	defer cancel()
 	resc := make(chan recvResult, 1)
@@ -641,51 +746,69 @@ func (w *world) recv(br blob.Ref, content []byte, order []int, kinds map[int]str
 		resc <- recvResult{sb, err}
 	}()
 	gid := <-gidc
-	for i := 0; i < n; i++ {
-		<-p.entered
-	}
-	var res *recvResult
-	released := 0
-	deadline := time.Now().Add(20 * time.Second)
-	for _, pos := range order {
-		close(p.gate[pos])
-		<-p.done[pos]
-		released++
-		// wait until the result has been consumed: either ReceiveBlob returned, or the upload's
-		// goroutine is gone (it has sent on resc) and ReceiveBlob is parked in the next receive
-		for res == nil {
-			select {
-			case r := <-resc:
-				res = &r
-				continue
-			default:
-			}
-			alive, parked := recvState(gid)
-			if alive == n-released && parked {
+	deadline := time.Now().Add(watchdog)
+	// whatever happens: open every gate, wait (bounded) for the uploads that did start, detach the plan
+	defer func() {
+		for pos := 0; pos < n; pos++ {
+			open(pos)
+		}
+		end := time.Now().Add(watchdog)
+		for time.Now().Before(end) {
+			if alive, _ := recvState(gid); alive == 0 {
 				break
-			}
-			if released == n && alive == 0 {
-				// all results sent; ReceiveBlob is on its way out
-				r := <-resc
-				res = &r
-				break
-			}
-			if time.Now().After(deadline) {
-				return "hang", nil
 			}
 			runtime.Gosched()
 		}
-		if res != nil {
-			break
+		for _, id := range w.writes {
+			w.subs[id].rplan.Store(nil)
+		}
+	}()
+
+	var res *recvResult
+	unforced := false
+	entered := 0
+	for entered < n && res == nil {
+		select {
+		case <-p.entered:
+			entered++
+		case r := <-resc:
+			res = &r
+			unforced = true
+		case <-time.After(time.Until(deadline)):
+			return "hang", nil
+		}
+	}
+	released := 0
+	if res == nil {
+	forcing:
+		for _, pos := range order {
+			open(pos)
+			if !waitc(p.done[pos], deadline) {
+				return "hang", nil
+			}
+			released++
+			// wait until the result has been consumed: either ReceiveBlob returned, or the upload's
+			// goroutine is gone (it has sent on resc) and ReceiveBlob is parked in the next receive
+			for {
+				select {
+				case r := <-resc:
+					res = &r
+					break forcing
+				default:
+				}
+				alive, parked := recvState(gid)
+				if alive == n-released && parked && released < n {
+					break
+				}
+				if time.Now().After(deadline) {
+					return "hang", nil
+				}
+				runtime.Gosched()
+			}
 		}
 	}
 	if res == nil {
-		select {
-		case r := <-resc:
-			res = &r
-		case <-time.After(20 * time.Second):
-			return "hang", nil
-		}
+		return "hang", nil
 	}
 	var held []int
 	for _, id := range w.writes {
@@ -697,15 +820,13 @@ func (w *world) recv(br blob.Ref, content []byte, order []int, kinds map[int]str
 	if cancelLate {
 		cancel()
 	}
-	for _, pos := range order[released:] {
-		close(p.gate[pos])
-		<-p.done[pos]
-	}
-	for time.Now().Before(deadline) {
-		if alive, _ := recvState(gid); alive == 0 {
-			break
+	if !unforced {
+		for _, pos := range order[released:] {
+			open(pos)
+			if !waitc(p.done[pos], time.Now().Add(watchdog)) {
+				return "hang", nil
+			}
 		}
-		runtime.Gosched()
 	}
 	var out string
 	var ie *injErr
@@ -728,11 +849,15 @@ func (w *world) recv(br blob.Ref, content []byte, order []int, kinds map[int]str
 			out = "err other"
 		}
 	}
-	return out + " held=" + showNats(held), held
+	out += " held=" + showNats(held)
+	if unforced {
+		out += " unforced"
+	}
+	return out, held
 }
 
 // stat runs StatBlobs with the up read replicas delivering one after the other in `order` (positions
-// in the read list; empty = all at once); the down ones fail after every report has been delivered.
+// in the read list; empty = the list's own order); the down ones fail after every report has been delivered.
 func (w *world) stat(refs []blob.Ref, order []int) ([]blob.SizedRef, error) {
 	n := len(w.reads)
 	p := &statPlan{posOf: map[int]int{}}
@@ -744,7 +869,13 @@ func (w *world) stat(refs []blob.Ref, order []int) ([]blob.SizedRef, error) {
 	for _, id := range w.reads {
 		w.subs[id].splan.Store(p)
 	}
+	opened := make([]bool, n)
 	defer func() {
+		for pos := 0; pos < n; pos++ {
+			if !opened[pos] {
+				close(p.gate[pos])
+			}
+		}
 		for _, id := range w.reads {
 			w.subs[id].splan.Store(nil)
 		}
@@ -760,34 +891,29 @@ func (w *world) stat(refs []blob.Ref, order []int) ([]blob.SizedRef, error) {
 			return nil
 		})
 	}()
+	deadline := time.Now().Add(watchdog)
+	errHang := errors.New("harness: StatBlobs did not call a read replica (watchdog)")
 	isDown := func(pos int) bool { return w.subs[w.reads[pos]].down.Load() }
 	if len(order) == 0 {
 		for pos := 0; pos < n; pos++ {
-			if !isDown(pos) {
-				close(p.gate[pos])
-			}
-		}
-		for pos := 0; pos < n; pos++ {
-			if !isDown(pos) {
-				<-p.done[pos]
-			}
-		}
-	} else {
-		for _, pos := range order {
-			if !isDown(pos) {
-				close(p.gate[pos])
-				<-p.done[pos]
-			}
+			order = append(order, pos)
 		}
 	}
-	for pos := 0; pos < n; pos++ {
-		if isDown(pos) {
-			close(p.gate[pos])
-			<-p.done[pos]
+	seq := append([]int(nil), order...)
+	sort.SliceStable(seq, func(a, b int) bool { return !isDown(seq[a]) && isDown(seq[b]) })
+	for _, pos := range seq {
+		opened[pos] = true
+		close(p.gate[pos])
+		if !waitc(p.done[pos], deadline) {
+			return nil, errHang
 		}
 	}
-	err := <-errc
-	mu.Lock()
-	defer mu.Unlock()
-	return append([]blob.SizedRef(nil), got...), err
+	select {
+	case err := <-errc:
+		mu.Lock()
+		defer mu.Unlock()
+		return append([]blob.SizedRef(nil), got...), err
+	case <-time.After(watchdog):
+		return nil, errHang
+	}
 }
